@@ -196,6 +196,11 @@ def make_distance_matrix_from_adjacency_matrix(AG):
     # Convert adjacency matrix to SciPy format if needed.
     if not sps.issparse(AG) and not isinstance(AG, np.ndarray):
         AG = np.asarray(AG)
+    elif sps.issparse(AG):
+        # scipy.sparse.csgraph only handles the csr, csc and lil formats, and
+        # with unweighted=True it takes explicitly stored zeros for edges.
+        AG = sps.csr_matrix(AG, copy=True)
+        AG.eliminate_zeros()
 
     # Compile distance matrix of the graph based on its shortest path
     # lengths.
